@@ -117,8 +117,6 @@ class C04(Check):
             if got_rows != want_rows:
                 ctx.violation(f"runs{tag}", case, f"got {got_rows!r} expected {want_rows!r}")
                 continue
-            if asm.name != "t.fa":
-                ctx.violation("assembly-name", case, asm.name)
             if first:
                 first = False
                 fi = FastaIndex(fm.MemPath(data), buf)
